@@ -465,6 +465,9 @@ func (wl *w2Workload) closeSession(id int64) bool {
 func (wl *w2Workload) restart() bool {
 	wl.prog = append(wl.prog, "restart")
 	wl.c.node.Stop()
+	if wl.c.node.CloseStuck {
+		return false
+	}
 	wl.c.node = wl.w.StartNode("n1", wl.nodeDir, wl.opts.cfgMod)
 	if wl.c.node.startErr != nil {
 		wl.fail("restart-error", "node failed to start: %v", wl.c.node.startErr)
